@@ -117,9 +117,12 @@ def c07_inline(rec):
         return {"oracle": "handle-retrieval", "detail": f"handles {inl['handles_bad']}"}
     if "obj_re" in inl:
         a, b = obs["obj"], inl["obj_re"]
-        if isinstance(a, str) or isinstance(b, str):
-            if a != b:
-                return {"oracle": "objective-value-inconsistent", "detail": f"reported {a} recomputed {b}"}
+        if isinstance(b, str):
+            # the objective overflows / is undefined at the returned point: outside its domain,
+            # there is no value to be consistent with (solvers clamp such values differently)
+            return None
+        if isinstance(a, str):
+            return {"oracle": "objective-value-inconsistent", "detail": f"reported {a} recomputed {b}"}
         elif not num_close(a, b, SELF_RTOL):
             return {"oracle": "objective-value-inconsistent", "detail": f"reported {a!r} recomputed {b!r}"}
     return None
